@@ -286,6 +286,9 @@ ASAN_B = ASAN_A + ":malloc_fill_byte=90:max_malloc_fill_size=4000000"
 def run_chunk(exe, ctx, name, plines, A, B, env_extra=None):
     """two harness processes (pass A, pass B); returns (trace path, rc, stderr tail, input paths)"""
     ipa, ipb = ctx.path(name + "_A.txt"), ctx.path(name + "_B.txt")
+    # only the packet streams this chunk decodes are built
+    used = set(ln.split()[2] for ln in A + B if ln.startswith("D "))
+    plines = [ln for ln in plines if ln.split()[1] in used]
     with open(ipa, "w") as f:
         f.write("\n".join(plines + A) + "\n")
     with open(ipb, "w") as f:
@@ -315,11 +318,12 @@ def parse_stats(r):
         m = re.match(r'<<"STATS", (.*)>>', p)
         if m:
             return [int(x) for x in m.group(1).split(",")]
-    return [0] * 8
+    return [0] * 9
 
 
 STAT_NAMES = ["full_key_comparisons", "erased_key_comparisons", "comparisons_on_copies", "comparisons_after_reset",
-              "comparisons_across_formats", "tolerated_F3_mismatches", "clipping_decodes_16bit_relation", "projection_relation_evaluated"]
+              "comparisons_across_formats", "tolerated_F3_mismatches", "clipping_decodes_16bit_relation", "projection_relation_evaluated",
+              "tolerated_projection_16bit_wraps"]
 
 
 def history_of_line(trace, lineno):
@@ -360,15 +364,35 @@ PROVISIONAL = [dict(property="C12", status="known", id="F3",
                           "reset, 20 kb/s: the first packet already differs from the fresh encoder's)"))]
 
 
-def known_f3(pid):
-    """the entry that allows the F3-shaped tolerance run: from known_findings.json once it is there, else the provisional one"""
-    for k in vf.known_findings("C12") + vf.known_findings(pid):
-        if k.get("id") == "F3":
-            return k
+PROVISIONAL.append(dict(property="C13", status="known", id="F-proj16",
+                        key=dict(kind="projection decoder", fmt="i16", cond="float output of the same call within 32 units of the 16-bit limits or beyond",
+                                 site="src/mapping_matrix.c mapping_matrix_multiply_channel_out_short: output[] += ... accumulates in opus_int16"),
+                        what=("opus_projection_decode() (16-bit) wraps instead of saturating when the demixed sum exceeds the 16-bit range: "
+                              "mapping_matrix_multiply_channel_out_short() adds each input channel's product into the opus_int16 output without "
+                              "saturation (e.g. four in-phase streams at half scale through a demixing matrix of 0.75s: float output 1.5, "
+                              "16-bit output wraps to negative values); the float and 24-bit entry points are not affected")))
+
+
+def finding_entry(fid):
+    """the known-finding entry with this id: from known_findings.json when it is listed there (status known -> the entry, any other
+    status -> None: a fixed finding is tolerated nowhere), else the provisional entry of this file"""
+    p = os.path.join(vf.ROOT, "known_findings.json")
+    if os.path.exists(p):
+        for k in json.load(open(p)).get("findings", []):
+            if k.get("id") == fid:
+                return k if k.get("status") == "known" else None
+    if os.environ.get("VERIF_NO_PROVISIONAL") == "1":     # used to verify a proposed repair: nothing is tolerated
+        return None
     for k in PROVISIONAL:
-        if k["id"] == "F3":
+        if k["id"] == fid:
             return k
     return None
+
+
+def trace_cfg(pid, f3, pj):
+    if pid == "C12":
+        return "ObjectsTrace_C12tol.cfg" if f3 else "ObjectsTrace_C12.cfg"
+    return "ObjectsTrace_C13%s.cfg" % ("tol" + ("F" if f3 and pj else "") + ("P" if pj else "") if (f3 or pj) else "")
 
 
 def model_runs(ctx, tier):
@@ -410,8 +434,8 @@ def build_histories(ctx, tier, pid):
         bfs6 = tlc_histories(ctx, "Objects_gen_thorough.cfg", what="gen: all histories to depth 6")
         ctx.notes["bfs_histories_enumerated"] = len(bfs5) + len(bfs6)
         rng.shuffle(bfs6)
-        bfs = bfs5 + bfs6[:5000]
-        sim = tlc_histories(ctx, "Objects_gen_sim.cfg", simulate=3000, depth=24, what="gen: long random histories", timeout=1500)[:1200]
+        bfs = bfs5 + bfs6[:2500]
+        sim = tlc_histories(ctx, "Objects_gen_sim.cfg", simulate=1500, depth=24, what="gen: long random histories", timeout=1500)[:600]
     ctx.notes["bfs_histories_replayed"] = len(bfs)
     ctx.notes["long_random_histories"] = len(sim)
     for ops in bfs + sim:
@@ -445,10 +469,12 @@ def for_variant(lines, vname):
 
 def run_check(ctx, pid):
     tier = ctx.tier
-    cfg = "ObjectsTrace_%s.cfg" % pid
-    cfgtol = "ObjectsTrace_%stol.cfg" % pid
+    f3 = finding_entry("F3")
+    pj = finding_entry("F-proj16") if pid == "C13" else None
+    # with a known-finding entry the mismatches of exactly that shape are let through by TLC and counted
+    usecfg = trace_cfg(pid, f3, pj)
     if ctx.replay:
-        return replay(ctx, pid, cfg, cfgtol)
+        return replay(ctx, pid, usecfg, f3, pj)
     import time
     t0 = time.time()
     model_runs(ctx, tier)
@@ -469,19 +495,16 @@ def run_check(ctx, pid):
         if vname not in exes:
             var = vf.build_variant(vname)
             exes[vname] = vf.build_hx(var, "objects.c")
-        # arch-capped repeats replay a third of the histories
-        sel = order if cap is None else order[::3]
-        nc = nchunks if cap is None else max(2, nchunks // 3)
+        # arch-capped repeats replay a sixth of the histories
+        sel = order if cap is None else order[cap % 6::6]
+        nc = nchunks if cap is None else max(2, nchunks // 6)
         per = (len(sel) + nc - 1) // nc
         for k in range(nc):
             part = sel[k * per:(k + 1) * per]
             if part:
                 jobs.append((vname, cap, k, part))
-    totals = [0] * 8
+    totals = [0] * 9
     events = 0
-    f3 = known_f3(pid)
-
-    usecfg = cfgtol if f3 is not None else cfg      # with a known-finding entry for F3 the F3-shaped mismatches are let through and counted
 
     def one(job):
         vname, cap, k, part = job
@@ -502,6 +525,13 @@ def run_check(ctx, pid):
     for job, name, out, rc, err, ips, res in results:
         vname, cap, k, part = job
         if rc != 0:
+            # R4: run it once more before reporting
+            A = [l for l in open(ips[0]).read().split("\n") if l and not l.startswith("P ")]
+            B = [l for l in open(ips[1]).read().split("\n") if l and not l.startswith("P ")]
+            out2, rc2, err2, ips2 = run_chunk(exes[vname], ctx, name + "_again", plines, A, B,
+                                              {"OPUS_VERIF_ARCH_CAP": str(cap)} if cap is not None else None)
+            if rc2 == 0:
+                raise vf.Infra("%s: hx_objects (%s) aborted rc=%d once and not when repeated: %s" % (pid, name, rc, err[-800:]))
             ctx.violation("hx_objects (%s) aborted rc=%d (sanitizer / assertion / canary / watchdog): %s" % (name, rc, err[-1500:]),
                           replay_text=replay_text(*ips))
             continue
@@ -525,13 +555,28 @@ def run_check(ctx, pid):
                     first = int(m.group(1))
                     break
             hid, ev = history_of_line(out, first or 0)
-            if not ctx.known:
+            if not any("OPUS_RESET_STATE" in k for k in ctx.known):
                 ctx.known_finding("%s [%d such mismatches in %s, first: %s]" % (f3["what"], st[5], name, (ev or "")[:260]))
                 if vf.REPO == "/repo" and hid is not None:
                     with open(os.path.join(vf.REPLAY, "%s_known_F3.txt" % pid), "w") as f:
                         f.write(minimal_replay(ips, hid))
             else:
                 ctx.known.append("F3-shaped mismatches: %d in %s" % (st[5], name))
+        if st[8] > 0:
+            first = None
+            for pr in tr.prints:
+                m = re.match(r'<<"TOLERATED_PROJ", (\d+)>>', pr)
+                if m:
+                    first = int(m.group(1))
+                    break
+            hid, ev = history_of_line(out, first or 0)
+            if not any("projection" in k for k in ctx.known):
+                ctx.known_finding("%s [%d such events in %s, first: %s]" % (pj["what"], st[8], name, (ev or "")[:420]))
+                if vf.REPO == "/repo" and hid is not None:
+                    with open(os.path.join(vf.REPLAY, "%s_known_F-proj16.txt" % pid), "w") as f:
+                        f.write(minimal_replay(ips, hid))
+            else:
+                ctx.known.append("projection 16-bit wraps: %d in %s" % (st[8], name))
         if len(ctx.samples) < 4:
             with open(out) as f:
                 for ln in f:
@@ -571,35 +616,29 @@ def minimal_replay(ips, hid):
     return extract_history(ips[0], hid) + "#PASS B\n" + extract_history(ips[1], hid)
 
 
-def replay(ctx, pid, cfg, cfgtol):
+def replay(ctx, pid, usecfg, f3, pj):
     txt = open(ctx.replay).read()
     a, _, b = txt.partition("#PASS B\n")
     plines = [l for l in a.split("\n") if l.startswith("P ")]
     A = [l for l in a.split("\n") if l and not l.startswith("P ")]
     B = [l for l in b.split("\n") if l and not l.startswith("P ") and not l.startswith("#")]
-    f3 = known_f3(pid)
-    bad = 0
     for vname in ("hk", "hkfix"):
         var = vf.build_variant(vname)
         exe = vf.build_hx(var, "objects.c")
-        out, rc, err, ips = run_chunk(exe, ctx, "replay_" + vname, plines, A, B)
+        out, rc, err, ips = run_chunk(exe, ctx, "replay_" + vname, plines, for_variant(A, vname), for_variant(B, vname))
         if rc != 0:
             ctx.violation("replay (%s) aborted rc=%d: %s" % (vname, rc, err[-1200:]), replay_text=txt)
-            bad += 1
             continue
-        acc, rej, tr = vf.validate_seq(ctx, "ObjectsTrace", cfg, out, "%s replay %s" % (pid, vname))
+        acc, rej, tr = vf.validate_seq(ctx, "ObjectsTrace", usecfg, out, "%s replay %s" % (pid, vname))
         ctx.evaluations += vf.count_lines(out)
-        if not acc and f3 is not None:
-            acc3, rej3, tr3 = vf.validate_seq(ctx, "ObjectsTrace", cfgtol, out, "%s replay %s tolerant" % (pid, vname))
-            if acc3:
-                ctx.known_finding(f3["what"])
-                acc = True
-            else:
-                rej = rej3
         if not acc:
             ctx.violation("replayed history rejected (%s) at line %s: %s" % (vname, rej, vf.file_line(out, rej or 1)[:700]), replay_text=txt)
-            bad += 1
-        else:
-            ctx.traces += 1
+            continue
+        st = parse_stats(tr)
+        if st[5] > 0 and f3:
+            ctx.known_finding(f3["what"] + " [%s]" % vname)
+        if st[8] > 0 and pj:
+            ctx.known_finding(pj["what"] + " [%s]" % vname)
+        ctx.traces += 1
     ctx.nontrivial_count = max(2, ctx.traces)
     ctx.sample(dict(replayed=os.path.basename(ctx.replay)))
